@@ -12,10 +12,13 @@ BRIDGES = {
     "C03": ["Barril.Bridge.Alg", "Barril.Bridge.Alg2"],
     "C04": ["Barril.Bridge.Alg", "Barril.Bridge.Alg2"],
     "C05": ["Barril.Bridge.Info", "Barril.Bridge.Alg2", "Barril.Bridge.Ccu"],
-    "C08": ["Barril.Bridge.Cmp"],
+    "C07": ["Barril.Bridge.Qeq"],
+    "C08": ["Barril.Bridge.Cmp", "Barril.Bridge.Qeq"],
     "C09": ["Barril.Bridge.Ops"],
+    "C10": ["Barril.Bridge.Ops"],
     "C11": ["Barril.Bridge.Fixed", "Barril.Bridge.Curve", "Barril.Bridge.Fixed2"],
     "C12": ["Barril.Bridge.Valid", "Barril.Bridge.Array"],
+    "C14": ["Barril.Bridge.Reg"],
     "C15": ["Barril.Bridge.Ccu"],
     "C16": ["Barril.Bridge.Info"],
     "C17": ["Barril.Bridge.Mgr", "Barril.Bridge.Mgr2"],
@@ -34,7 +37,10 @@ GENERATED_FROM = {
     "Barril.Bridge.Ccu": ["barril/units/unit_database.py:UnitDatabase.CheckCategoryUnit"],
     "Barril.Bridge.Fixed2": ["barril/units/_fixedarray.py:FixedArray.IndexAsScalar",
                              "barril/units/_fixedarray.py:FixedArray.ChangingIndex"],
-    "Barril.Bridge.Ops": ["barril/units/_scalar.py:Scalar._DoOperation"],
+    "Barril.Bridge.Ops": ["barril/units/_scalar.py:Scalar._DoOperation", "barril/units/_array.py:Array._DoOperation"],
+    "Barril.Bridge.Reg": ["barril/units/unit_database.py:UnitDatabase.AddUnit",
+                          "barril/units/unit_database.py:UnitDatabase.AddUnitBase"],
+    "Barril.Bridge.Qeq": ["barril/units/_quantity.py:Quantity.__eq__", "barril/units/_quantity.py:Quantity.__hash__"],
     "Barril.Bridge.Valid": ["barril/units/_quantity.py:Quantity.CheckValue"],
     "Barril.Bridge.Conv": ["barril/units/unit_database.py:UnitDatabase.Convert"],
     "Barril.Bridge.Info": ["barril/units/unit_database.py:UnitDatabase.GetInfo",
